@@ -156,24 +156,26 @@ def register(eng):
         valid = b_and(*[(is_digit(eng, x) if radix == 10 else is_hex(eng, x)) for x in digits])
         if not eng.decide(valid):
             return err(Opaque("ParseIntError", ["InvalidDigit"]))
-        if radix ** len(digits) - 1 > (1 << (w - 1 if sg else w)) - 1:
-            if all(isinstance(x, int) for x in digits):
-                v = int(bytes(digits).decode(), radix)
-                v = -v if neg else v
-                lo = -(1 << (w - 1)) if sg else 0
-                hi = (1 << (w - 1)) - 1 if sg else (1 << w) - 1
-                if not (lo <= v <= hi):
-                    return err(Opaque("ParseIntError", ["Overflow"]))
-                return ok(v)
-            raise Unmodelled("symbolic numeral that may overflow %s" % ty)
-        acc = 0
+        bits_per = 4 if radix == 16 else 4
+        wide = max(w, bits_per * len(digits)) + 8
+        may_overflow = radix ** len(digits) - 1 > (1 << (w - 1 if sg else w)) - 1
+        if all(isinstance(x, int) for x in digits):
+            v = int(bytes(digits).decode(), radix)
+            v = -v if neg else v
+            lo = -(1 << (w - 1)) if sg else 0
+            hi = (1 << (w - 1)) - 1 if sg else (1 << w) - 1
+            if not (lo <= v <= hi):
+                return err(Opaque("ParseIntError", ["Overflow"]))
+            return ok(v)
+        acc = z3.BitVecVal(0, wide)
         for x in digits:
-            d = (x - 48) if isinstance(x, int) and radix == 10 else (hex_val(eng, x) if radix == 16 else bv8(eng, x) - 48)
-            if isinstance(acc, int) and isinstance(d, int):
-                acc = acc * radix + d
-            else:
-                A = eng.to_bv(acc, w)
-                acc = A * radix + z3.ZeroExt(w - 8, eng.to_bv(d, 8))
+            d = hex_val(eng, x) if radix == 16 else (bv8(eng, x) - 48)
+            acc = acc * radix + z3.ZeroExt(wide - 8, eng.to_bv(d, 8))
+        if may_overflow:
+            limit = (1 << (w - 1)) if (sg and neg) else ((1 << (w - 1)) - 1 if sg else (1 << w) - 1)
+            if eng.decide(z3.UGT(acc, z3.BitVecVal(limit, wide))):
+                return err(Opaque("ParseIntError", ["Overflow"]))
+        acc = z3.Extract(w - 1, 0, acc)
         if neg:
             acc = -acc
         return ok(acc)
